@@ -32,11 +32,11 @@ func vC11_nodeByName(t *tree, name string) (*pidNode, bool) {
 func vC11_nodeByID(t *tree, id string) (*pidNode, bool) { return vC11_nodeByName(t, id) }
 func vC11_addNode(t *tree, parent, pid *PID) error {
 	name := vC11_names[pid]
+	n := &pidNode{id: name, name: name}
+	n.pid.Store(pid) // the only synchronisation operation of the ghost insert: on the still private node, before the check
 	if _, ok := vC11_nodes[name]; ok {
 		return errNodeAlreadyExists
 	}
-	n := &pidNode{id: name, name: name}
-	n.pid.Store(pid)
 	vC11_nodes[name] = n
 	return nil
 }
